@@ -42,8 +42,8 @@ type Scen struct {
 	TIVerdict string    `json:"tiVerdict"` // success failure missing
 	RVVerdict string    `json:"rvVerdict"`
 	PluginErr bool      `json:"pluginErr"`
-	Crit      string    `json:"crit"`    // none processed unprocessed
-	CritInt   bool      `json:"critInt"` // COSE integer-keyed critical attribute
+	Crit      string    `json:"crit"`     // none processed unprocessed
+	CritInt   bool      `json:"critInt"`  // COSE integer-keyed critical attribute
 	CapOrder  int       `json:"capOrder"` // order in which the plugin declares its capabilities
 	// Warm: an earlier verification on the SAME verifier with another envelope (other expiry /
 	// certificate times / attributes); it is not judged and must not influence the judged one
@@ -261,6 +261,7 @@ func realise(s *Scen) (*run, error) {
 		rev.Results = []result.Result{result.ResultOK, result.ResultOK, result.ResultUnknown}
 	case "error":
 		rev.Err = errors.New("scripted validator error")
+		rev.ErrWithResults = s.CapOrder%2 == 1
 	}
 	plug := &mocks.Plugin{Name: pluginName, Version: pluginVersion, Verdicts: map[pf.Capability]string{
 		pf.CapabilityTrustedIdentityVerifier: s.TIVerdict, pf.CapabilityRevocationCheckVerifier: s.RVVerdict}}
